@@ -492,6 +492,7 @@ pub fn par_map<T: Sync, R: Send>(
     std::thread::scope(|s| {
         for _ in 0..threads {
             s.spawn(|| {
+                thread_init();
                 loop {
                     let i = next.fetch_add(1, std::sync::atomic::Ordering::Relaxed);
                     if i >= n {
@@ -549,4 +550,10 @@ pub fn load_replay(path: &PathBuf) -> Value {
         .unwrap_or_else(|e| machinery_error(&format!("cannot read replay {path:?}: {e}")));
     serde_json::from_str(&text)
         .unwrap_or_else(|e| machinery_error(&format!("bad replay json {path:?}: {e}")))
+}
+
+/// Per-thread initialisation: sozu's thread-local logger prints every
+/// `error!` on stdout when uninitialised; an empty directive list mutes it.
+pub fn thread_init() {
+    sozu_command_lib::logging::LOGGER.with(|l| l.borrow_mut().set_directives(vec![]));
 }
